@@ -129,8 +129,7 @@ def SilentExplicit (tr : List Obs) : Prop :=
     ∃ (j : Nat) (s : Scope), j < i ∧ tr[j]? = some (Obs.reqStart c (.activate s)) ∧ covers s m p = true ∧
       ∀ (k : Nat) (o : Obs), j < k → k < i → tr[k]? = some o → ¬ endsReply c s o
 
-/-- the scopes the monitor holds after `tr` -/
-def liveAfter (tr : List Obs) : Conn → List Scope := silentMon.after silentMon.init tr
+-- `liveAfter tr` (the scopes the monitor holds after `tr`) is defined in `Spec/C08`
 
 theorem mem_liveNext (live : Conn → List Scope) (o : Obs) (c : Conn) (s : Scope) :
     s ∈ liveNext live o c ↔ o = .reqStart c (.activate s) ∨ (s ∈ live c ∧ ¬ endsReply c s o) := by
